@@ -213,6 +213,23 @@ func init() {
 			}
 			c.runBFS("bfs-T1-mixed-epochs-store-"+kind, sys, d, nil)
 		}
+		// answers with and without an Age of their own on one key: an Age above the lifetime makes the answer uncacheable,
+		// and the Age of an earlier generation says nothing about the next one
+		{
+			cfg := env.BasicConfig(config.CacheConfig{HitForPass: "2s"})
+			sys := &keySys{cfg: cfg, cfgKey: "hfp-2s", P: 2, events: []keyEvent{
+				{Name: "GET(origin:max-age=3,age=2)", Kind: "get", Ans: "cacheable", T: 3, Age: "2"},
+				{Name: "GET(origin:max-age=2)", Kind: "get", Ans: "cacheable", T: 2},
+				{Name: "GET(origin:max-age=2,age=30)", Kind: "get", Ans: "cacheable", T: 2, Age: "30"},
+				{Name: "tick+1", Kind: "tick", D: 1},
+				{Name: "tick+3", Kind: "tick", D: 3},
+			}}
+			d := 6
+			if c.Thorough() {
+				d = 8
+			}
+			c.runBFS("bfs-mixed-origin-age", sys, d, nil)
+		}
 		// the origin's Date header (correct, ahead, behind) has no say in the lifetime
 		for _, od := range []string{"0", "+8", "-8"} {
 			cfg := env.BasicConfig(config.CacheConfig{})
